@@ -29,8 +29,11 @@ def load_repo(repo):
     warnings.simplefilter("ignore")
     import localcider  # noqa
     import localcider.sequenceParameters  # noqa
-    import localcider.sequencePermutants  # noqa
-    import localcider.backend.wang_landau  # noqa
+    for extra in ("localcider.sequencePermutants", "localcider.backend.wang_landau"):
+        try:                       # warm-up only: the checks that need these modules import them themselves
+            __import__(extra)
+        except Exception:
+            pass
     got = os.path.dirname(os.path.abspath(localcider.__file__))
     if got != os.path.join(repo, "localcider"):
         raise RuntimeError("localcider imported from %s, not from %s" % (got, repo))
